@@ -27,13 +27,16 @@ structure Quirks where
   supportTTL : Bool := true
   /-- compare-and-delete failure is a bare `ErrCASFailed` (memkv) rather than a `Conflict`. -/
   delCurBareCas : Bool := false
+  /-- a scan reads from the snapshot of the timestamp taken when the scan STARTED (tikv) rather than from
+  the state when its iterator is created (memkv, badger) -/
+  snapshotAtTs : Bool := false
   deriving Repr
 
 def Quirks.memkv : Quirks := { casConflictValExpected := true, limitMode := .ignore, delCurBareCas := true }
 def Quirks.badger : Quirks := {}
 /-- tikv after the two `fix:` commits (CAS on a missing key is a conflict; the first element of a
 reverse iteration is bound-checked). The pre-fix adapter is `Quirks.tikvOld`. -/
-def Quirks.tikv : Quirks := { idxOffset := 1, limitMode := .plusOne, supportTTL := false }
+def Quirks.tikv : Quirks := { idxOffset := 1, limitMode := .plusOne, supportTTL := false, snapshotAtTs := true }
 def Quirks.tikvOld : Quirks :=
   { idxOffset := 1, casMissingNotFound := true, revFirstUnchecked := true, limitMode := .plusOne,
     supportTTL := false }
